@@ -146,17 +146,43 @@ def trimDateToks (t : List DateTok) : List DateTok :=
   | some .space => t.dropLast
   | _ => t
 
+/-- `0x…` / `0o…` / `0b…`: digits (with separators) after the two-character marker -/
+def radixLit (p : Char → Bool) (mk : String → Token) (err : String) (cs : List Char) : Token × List Char :=
+  let (h, r) := digitsSep p cs.tail
+  if h.isEmpty then (.error err, r) else (mk (str h), r)
+
+/-- a doubled exponent marker (`1ee5`) is tolerated -/
+def expSkipE : List Char → List Char
+  | e2 :: r => if e2 == 'e' || e2 == 'E' then r else e2 :: r
+  | [] => []
+
+/-- the optional sign of the exponent -/
+def expSign : List Char → List Char × List Char
+  | '-' :: r => (['-'], r)
+  | '+' :: r => ([], r)
+  | r => ([], r)
+
+/-- the exponent part of a decimal literal, entered with the input after the fraction -/
+def expPart (int : List Char) (frac : Option String) (r3 : List Char) : Token × List Char :=
+  match r3 with
+  | e :: r4 =>
+    if e == 'e' || e == 'E' then
+      let (sign, r6) := expSign (expSkipE r4)
+      let (ed, r7) := digitsSep isDec r6
+      let buf := sign ++ ed
+      if buf.isEmpty then (.error "Malformed number literal: No digits after exponent", r7)
+      else (.decimal (str int) frac (some (str buf)), r7)
+    else (.decimal (str int) frac none, r3)
+  | [] => (.decimal (str int) frac none, r3)
+
 /-- the number branch, entered with first char `x` (a digit or `.`) already consumed -/
 def lexNumber (x : Char) (cs : List Char) : Token × List Char :=
   if x == '0' && cs.head? == some 'x' then
-    let (h, r) := digitsSep isHex cs.tail
-    if h.isEmpty then (.error "Malformed hexadecimal literal: No digits after 0x", r) else (.hex (str h), r)
+    radixLit isHex .hex "Malformed hexadecimal literal: No digits after 0x" cs
   else if x == '0' && cs.head? == some 'o' then
-    let (h, r) := digitsSep isOct cs.tail
-    if h.isEmpty then (.error "Malformed octal literal: No digits after 0o", r) else (.oct (str h), r)
+    radixLit isOct .oct "Malformed octal literal: No digits after 0o" cs
   else if x == '0' && cs.head? == some 'b' then
-    let (h, r) := digitsSep isBin cs.tail
-    if h.isEmpty then (.error "Malformed binary literal: No digits after 0b", r) else (.bin (str h), r)
+    radixLit isBin .bin "Malformed binary literal: No digits after 0b" cs
   else
     let (int, r1) := if x != '.' then (let (d, r) := digitsSep isDec cs; (x :: d, r)) else (['0'], cs)
     -- fractional component
@@ -166,86 +192,73 @@ def lexNumber (x : Char) (cs : List Char) : Token × List Char :=
     if hasFrac && fracDigits.isEmpty then
       (.error "Malformed number literal: No digits after decimal point", r3)
     else
-      let frac := if hasFrac then some (str fracDigits) else none
-      -- exponent
-      match r3 with
-      | e :: r4 =>
-        if e == 'e' || e == 'E' then
-          let r5 := match r4 with
-            | e2 :: r => if e2 == 'e' || e2 == 'E' then r else r4
-            | [] => r4
-          let (sign, r6) := match r5 with
-            | '-' :: r => (['-'], r)
-            | '+' :: r => ([], r)
-            | _ => ([], r5)
-          let (ed, r7) := digitsSep isDec r6
-          let buf := sign ++ ed
-          if buf.isEmpty then (.error "Malformed number literal: No digits after exponent", r7)
-          else (.decimal (str int) frac (some (str buf)), r7)
-        else (.decimal (str int) frac none, r3)
-      | [] => (.decimal (str int) frac none, r3)
+      expPart int (if hasFrac then some (str fracDigits) else none) r3
 
-/-- One call of `TokenIterator::next` on non-exhausted input (`' '`/`'\t'` recurse via fuel). -/
+/-- the token that starts with the non-blank character `c` (everything of `TokenIterator::next`
+except the skipping of blanks) -/
+def nextTok (cc : CharClass) (c : Char) (cs : List Char) : Token × List Char :=
+  if c == '\n' then (.newline, cs)
+  else if c == '(' then (.lpar, cs)
+  else if c == ')' then (.rpar, cs)
+  else if c == '+' then (.plus, cs)
+  else if c == ';' then (.semicolon, cs)
+  else if c == '%' then (.percent, cs)
+  else if c == '=' then (.equals, cs)
+  else if c == '^' then (.caret, cs)
+  else if c == ',' then (.comma, cs)
+  else if c == '|' || c == '∕' then (.pipe, cs)
+  else if c == ':' then (.colon, cs)
+  else if c == '→' then (.dashArrow, cs)
+  else if c == '<' && cs.head? == some '<' then (.dLAngle, cs.tail)
+  else if c == '>' && cs.head? == some '>' then (.dRAngle, cs.tail)
+  else if c == '*' then
+    if cs.head? == some '*' then (.caret, cs.tail) else (.asterisk, cs)
+  else if c == '-' then
+    if cs.head? == some '>' then (.dashArrow, cs.tail) else (.minus, cs)
+  else if c == '−' then (.minus, cs)
+  else if c == '/' then
+    match cs with
+    | '/' :: _ => (.comment, lineComment cs)
+    | '*' :: _ =>
+      match blockComment cs with
+      | some r => (.comment, r)
+      | none => (.error "Expected `*/`, got EOF", [])
+    | _ => (.slash, cs)
+  else if isDec c || c == '.' then lexNumber c cs
+  else if c == '\\' then
+    match cs with
+    | 'u' :: r =>
+      let (h, r') := span isHex r
+      -- after the fix: no digits is an error token instead of `from_str_radix("").unwrap()`
+      if h.isEmpty then (.error "Invalid unicode escape", r')
+      else
+        let v := h.foldl (fun a d => a * 16 + (if isDec d then d.toNat - 48 else if 'a' ≤ d && d ≤ 'f' then d.toNat - 87 else d.toNat - 55)) 0
+        if v < 4294967296 then
+          (if v < 0xD800 || (0xDFFF < v && v < 0x110000) then (.ident (str [Char.ofNat v]), r')
+           else (.error "Invalid unicode scalar", r'))
+        else (.error "Invalid unicode escape", r')
+    | _ :: r => (.error "Unexpected \\", r)
+    | [] => (.error "Unexpected \\", [])
+  else if c == '\'' then
+    match quoteBody [] cs with
+    | some (b, r) => (.quote (str b), r)
+    | none => (.error "quote", quoteFailRest cs)
+  else if c == '#' then
+    let (t, r) := dateBody cc (cs.length + 1) cs
+    (.date (trimDateToks t), r)
+  else if c == '"' then
+    let (b, r) := dquoteBody [] cs
+    (.ident (str b), r)
+  else
+    let (b, r) := span (fun c => cc.isAlnum c || c == '_' || c == '$') cs
+    (degreeOrKeyword (str (c :: b)), r)
+
+/-- One call of `TokenIterator::next` (`' '`/`'\t'` recurse via fuel). -/
 def next (cc : CharClass) : Nat → List Char → Token × List Char
   | 0, cs => (.eof, cs)
   | _, [] => (.eof, [])
   | fuel + 1, c :: cs =>
-    if c == ' ' || c == '\t' then next cc fuel cs
-    else if c == '\n' then (.newline, cs)
-    else if c == '(' then (.lpar, cs)
-    else if c == ')' then (.rpar, cs)
-    else if c == '+' then (.plus, cs)
-    else if c == ';' then (.semicolon, cs)
-    else if c == '%' then (.percent, cs)
-    else if c == '=' then (.equals, cs)
-    else if c == '^' then (.caret, cs)
-    else if c == ',' then (.comma, cs)
-    else if c == '|' || c == '∕' then (.pipe, cs)
-    else if c == ':' then (.colon, cs)
-    else if c == '→' then (.dashArrow, cs)
-    else if c == '<' && cs.head? == some '<' then (.dLAngle, cs.tail)
-    else if c == '>' && cs.head? == some '>' then (.dRAngle, cs.tail)
-    else if c == '*' then
-      if cs.head? == some '*' then (.caret, cs.tail) else (.asterisk, cs)
-    else if c == '-' then
-      if cs.head? == some '>' then (.dashArrow, cs.tail) else (.minus, cs)
-    else if c == '−' then (.minus, cs)
-    else if c == '/' then
-      match cs with
-      | '/' :: _ => (.comment, lineComment cs)
-      | '*' :: _ =>
-        match blockComment cs with
-        | some r => (.comment, r)
-        | none => (.error "Expected `*/`, got EOF", [])
-      | _ => (.slash, cs)
-    else if isDec c || c == '.' then lexNumber c cs
-    else if c == '\\' then
-      match cs with
-      | 'u' :: r =>
-        let (h, r') := span isHex r
-        -- after the fix: no digits is an error token instead of `from_str_radix("").unwrap()`
-        if h.isEmpty then (.error "Invalid unicode escape", r')
-        else
-          let v := h.foldl (fun a d => a * 16 + (if isDec d then d.toNat - 48 else if 'a' ≤ d && d ≤ 'f' then d.toNat - 87 else d.toNat - 55)) 0
-          if v < 4294967296 then
-            (if v < 0xD800 || (0xDFFF < v && v < 0x110000) then (.ident (str [Char.ofNat v]), r')
-             else (.error "Invalid unicode scalar", r'))
-          else (.error "Invalid unicode escape", r')
-      | _ :: r => (.error "Unexpected \\", r)
-      | [] => (.error "Unexpected \\", [])
-    else if c == '\'' then
-      match quoteBody [] cs with
-      | some (b, r) => (.quote (str b), r)
-      | none => (.error "quote", quoteFailRest cs)
-    else if c == '#' then
-      let (t, r) := dateBody cc (cs.length + 1) cs
-      (.date (trimDateToks t), r)
-    else if c == '"' then
-      let (b, r) := dquoteBody [] cs
-      (.ident (str b), r)
-    else
-      let (b, r) := span (fun c => cc.isAlnum c || c == '_' || c == '$') cs
-      (degreeOrKeyword (str (c :: b)), r)
+    if c == ' ' || c == '\t' then next cc fuel cs else nextTok cc c cs
 
 /-- All tokens of the input up to and including the first `eof`. -/
 def lexAll (cc : CharClass) : Nat → List Char → List Token
